@@ -151,24 +151,24 @@ type SMEnv interface {
 
 // SMInst is one user state machine instance (one incarnation of a replica).
 type SMInst struct {
-	env       SMEnv
-	Host      int
-	Inc       int
-	Kind      int
-	ShardID   uint64
-	ReplicaID uint64
-	st        *smState
-	fs        gvfs.FS // on disk SM: where its data lives
-	path      string
-	Active    map[string]int
-	Closed    bool
-	Opened    bool
-	OpenIndex uint64
-	LastIndex uint64 // last index handed to Update in this incarnation
-	Updates   uint64
-	Dead      func() bool
+	env           SMEnv
+	Host          int
+	Inc           int
+	Kind          int
+	ShardID       uint64
+	ReplicaID     uint64
+	st            *smState
+	fs            gvfs.FS // on disk SM: where its data lives
+	path          string
+	Active        map[string]int
+	Closed        bool
+	Opened        bool
+	OpenIndex     uint64
+	LastIndex     uint64 // last index handed to Update in this incarnation
+	Updates       uint64
+	Dead          func() bool
 	importChecked bool
-	DurableIndex uint64 // on-disk SM: index of the last entry its durable image contains
+	DurableIndex  uint64 // on-disk SM: index of the last entry its durable image contains
 }
 
 func (i *SMInst) enter(m string) { i.env.SMEnter(i, m) }
